@@ -366,15 +366,17 @@ int disasm_arm64(
         }
         case OP_REG_RELATIVE:
         {
+          // immhi is bits 23-5, immlo bits 30-29; the 21 bit offset is signed
+          // and relative to the address of the instruction itself.
           imm = (opcode >> 5) & ((1 << 19) - 1);
-          imm = (imm << 2) | ((opcode >> 24) & 0x3);
+          imm = (imm << 2) | ((opcode >> 29) & 0x3);
 
-          if ((imm & 0x00080000) != 0) { imm &= 0xfff00000; }
+          if ((imm & 0x00100000) != 0) { imm |= 0xffe00000; }
 
           snprintf(instruction, length, "%s x%d, 0x%04x (offset=%d)",
             table_arm64[n].instr,
             rd,
-            address + 4 + imm,
+            address + imm,
             imm);
 
           return 4;
@@ -474,7 +476,7 @@ int disasm_arm64(
 
           snprintf(instruction, length, "%s 0x%04x (offset=%d)",
             table_arm64[n].instr,
-           (address + 4 + imm),
+           (address + imm),
             imm);
 
           return 4;
